@@ -797,3 +797,45 @@ def t_flags_value(facts, res, tier):
                 if not supported and not maybe_wide:
                     res.fail(key, facts.where(fn, e["node"]), "%s records that the flags describe %s operand `%s`, but the last N/Z-changing instruction emitted on this path does not load, increment, decrement or store that operand (N/Z describe %s)" % (
                         fn["name"], variant, base, desc))
+
+
+@rule("T-CONTINUE-FLAG", floor=3,
+      text="the protocol that decides whether a do-while emits its continue label is closed: every jump to the current continue label (generate_continue, the `if (c) continue;` shortcut) marks the innermost loops entry, and every construct that pushes an entry *inheriting* the enclosing loop's continue label (switch) hands that mark to the enclosing entry when it pops - otherwise `continue` inside a switch inside a do-while jumps to a label that is never defined")
+def t_continue_flag(facts, res, tier):
+    # (1) jump sites
+    for fname in ("generate_continue", "generate_if"):
+        fn = facts.fn(fname, GEN_QUAL)
+        t = expr_text(fn["body"]).replace(" ", "")
+        key = "T-CONTINUE-FLAG:mark:%s" % fname
+        res.inst(key)
+        uses = re.search(r"Some\(\((\w+),_,_\)\)=>", t) is not None
+        marks = "self.loops.last_mut().unwrap().2=true" in t
+        if uses and not marks:
+            res.fail(key, facts.where(fn), "%s jumps to the continue label without marking the loops entry" % fname)
+    # (2) inheriting pushes
+    for fn in gen_fns(facts):
+        pushes = [n for n in walk(fn["body"]) if n.get("k") == "mcall" and n["method"] == "push" and expr_text(n["recv"]) == "self.loops"]
+        inherits = [n for n in pushes if n["args"] and n["args"][0].get("k") == "tuple" and n["args"][0]["elems"] and re.match(r"^\w+\.0(\.clone\(\))?$", expr_text(n["args"][0]["elems"][0]))]
+        if not inherits:
+            continue
+        key = "T-CONTINUE-FLAG:propagate:%s" % fn["name"]
+        res.inst(key, True, {"function": fn["name"], "inheriting_pushes": len(inherits)})
+        t = expr_text(fn["body"]).replace(" ", "")
+        # accepted shapes: the popped entry's flag is read and the (new) last entry is marked
+        popped = re.search(r"let(\w+)=self\.loops\.pop\(\)", t)
+        ok = False
+        if popped:
+            v = popped.group(1)
+            if re.search(r"%s[^;]*\.2|Some\(\(_,_,true\)\)=%s|Some\(\(_,_,(\w+)\)\)=%s" % (v, v, v), t) and "last_mut()" in t and ".2=true" in t:
+                ok = True
+        if re.search(r"ifletSome\(\(_,_,true\)\)=self\.loops\.pop\(\)", t) and ".2=true" in t:
+            ok = True
+        if not ok:
+            res.fail(key, facts.where(fn, inherits[0]), "%s pushes a loops entry that inherits the enclosing continue label but drops the entry's `continue seen` mark when it pops: a `continue` inside it leaves the enclosing do-while unaware and its `.dowhilecondition` label is never emitted" % fn["name"])
+    # (3) the do-while defines the label exactly when marked
+    dw = facts.fn("generate_do_while", GEN_QUAL)
+    key = "T-CONTINUE-FLAG:define:generate_do_while"
+    res.inst(key)
+    t = expr_text(dw["body"]).replace(" ", "")
+    if not re.search(r"ifself\.loops\.last\(\)\.unwrap\(\)\.2\{self\.label\(dowhilecondition_label\)", t):
+        res.fail(key, facts.where(dw), "generate_do_while does not define its continue label when (and only when) a continue was seen")
